@@ -69,6 +69,11 @@ CLAIMED["C20"] = dict(engine="query", technique="TLA+ specification of deps/rdep
     text="Query.tla defines direct/transitive dependencies and dependants on the node graph, owners and list for every 4-node graph with an optional alias and test names (392 graphs), and TLC checks in every state that deps and rdeps are mutual inverses (direct and transitive). For each graph (quick: 40, diamonds preferred) the real grog deps / rdeps (with -t and --target-type) / owners / list commands are run and their stdout must be exactly the specified label set with every label once; on a subset the workspace is built, one input file edited and rebuilt: the re-executed targets must lie inside owners(f) plus transitive rdeps as printed by the real commands and as the specification computes.",
     note="An alias is a node of its own in the query graph; --target-type is applied to targets only. Trusted: TLC, C17 for pattern strings, the workspace renderer in vlib/checks/c20.py.")
 
+CLAIMED["C16"] = dict(engine="loader", technique="TLA+ specification of the abstract package, the enrichment rules and the annotation line automaton enumerated by TLC; every abstract package rendered in four formats and every line sequence replayed into the real loaders (enumerated-case conformance), plus seeded corruption runs judged for panics/hangs",
+    category="model_checking", design_ref="DESIGN.md section 4.7, section 7 C16, section 9",
+    text="Loader.tla defines the abstract package (command, dependencies, literal and glob inputs with excludes, outputs, bin_output, tags, fingerprint, platforms with package defaults, timeout, alias), Expected(pkg) by the enrichment rules, and the Makefile annotation automaton over all sequences of seven line kinds. Every abstract package (9 216) is rendered as BUILD.json, BUILD.yaml, BUILD.star and Makefile annotations and loaded by the real loaders through LoadPackages; each must produce exactly Expected (so all formats agree); every line-kind sequence (19 608 / 137 257) goes through the real Makefile loader and must give the specified targets or error; ten structural JSON corruptions must be rejected; seeded byte-level mutations of renderings in all formats and loads under worker counts 1..16 must neither panic, hang nor change the result.",
+    note="Not decided by the specification: arbitrary byte-level corruption (run as seeded samples, judged only for panics and hangs); pkl and script loaders are not exercised; globs that match the BUILD file itself are outside the cross-format claim (the file name necessarily differs). Trusted: TLC, the four renderers in harness/cmd/h/loader.go.")
+
 PENDING = "check not built yet in this round (specification and binding planned in DESIGN.md section 7); not claimed until its quick tier is registered"
 
 checks, na = [], []
@@ -110,6 +115,7 @@ manifest = {
    {"name": "selection", "path": "spec/Selection.tla + harness/cmd/h/selection.go + vlib/checks/c12.py", "serves_properties": ["C12"], "kind_free_text": "TLC-enumerated (graph, invocation) pairs replayed into the real Selector and the CLI"},
    {"name": "traversal", "path": "spec/Traversal.tla + harness/cmd/h/traversal.go + vlib/checks/c19.py", "serves_properties": ["C19"], "kind_free_text": "visited-set traversal spec; real work counters against the specified bound"},
    {"name": "query", "path": "spec/Query.tla + vlib/checks/c20.py", "serves_properties": ["C20"], "kind_free_text": "TLC-exported query answers compared with the real commands' stdout"},
+   {"name": "loader", "path": "spec/Loader.tla + harness/cmd/h/loader.go + vlib/checks/c16.py", "serves_properties": ["C16"], "kind_free_text": "TLC-enumerated abstract packages rendered in four formats and loaded by the real loaders"},
    {"name": "labels", "path": "spec/Labels.tla + harness/cmd/h/labels.go + vlib/checks/c17.py", "serves_properties": ["C17"], "kind_free_text": "TLC-enumerated function specification, reference table replayed into the real API"},
  ],
  "checks": checks,
